@@ -843,28 +843,7 @@ func ruleC11Rest(c *Checker) {
 		}
 	}
 	ruleRemoteKey(c)
-	// publication in DoHandshake (as C04 PUBLISH)
-	if dh := mboxFunc(c, "(*mailbox.Machine).DoHandshake"); dh != nil {
-		fVer := w.Field("mailbox.handshakeState.version")
-		hv2 := w.Const("mailbox.HandshakeVersion2")
-		calls := findCalls(dh, func(ci ssa.CallInstruction) bool {
-			return ci.Common().IsInvoke() && ci.Common().Method.Name() == "SetRemote"
-		})
-		okk := len(calls) == 1 && fVer != nil && hv2 != nil
-		if okk {
-			v2, _ := constant.Int64Val(constant.ToInt(hv2.Val()))
-			okk = hasFact(calls[0].Block(), func(f Fact) bool {
-				bo, ok := f.Cond.(*ssa.BinOp)
-				if !ok || !isLoadOfField(bo.X, fVer) {
-					return false
-				}
-				k, ok := intConst(bo.Y)
-				return ok && ((bo.Op == token.GEQ && f.Val && k == v2) || (bo.Op == token.LSS && !f.Val && k == v2))
-			})
-		}
-		rulePublishOrder(c, "SIDFRESH")
-		c.decide(okk, "SIDFRESH", "DoHandshake|SetRemote for version >= 2", dh.Pos(), "both parties publish the remote static key when the negotiated version is >= 2", "the remote key is not published exactly for version >= 2: the two sides move to different rendezvous points")
-	}
+	rulePublishGuard(c)
 	c.floor("EXCL", 10)
 	c.floor("SIDFRESH", 20)
 	c.floor("FRESH", 18)
@@ -1395,6 +1374,7 @@ func runC17(c *Checker) {
 	ruleAcceptDial(c)
 	c.mute = nil
 	ruleRemoteKey(c)
+	rulePublishGuard(c)
 	c.floor("SIDFRESH", 8)
 }
 
@@ -1490,35 +1470,115 @@ func ruleRemoteKey(c *Checker) {
 			})
 			c.decide(okk, "SIDFRESH", n+"|branches on remoteKey", fn.Pos(), "decides on remoteKey != nil", n+" does not depend on the presence of the remote key: SID and pattern can disagree after pairing")
 		}
-		if sr := mboxFunc(c, "(*mailbox.ConnData).SetRemote"); sr != nil {
-			okk := false
-			for _, st := range w.Stores(fRK) {
-				if st.Parent() == sr && st.Val == ssa.Value(sr.Params[1]) {
-					okk = true
-				}
+		ruleConnDataSetters(c, "SIDFRESH", false)
+		rulePatternSource(c, "SIDFRESH")
+	}
+}
+
+// rulePublishGuard: DoHandshake publishes the remote static key exactly when the *negotiated*
+// version is >= 2 (as C04 PUBLISH), and nothing can fail between split and that publication.
+func rulePublishGuard(c *Checker) {
+	w := c.w
+	dh := mboxFunc(c, "(*mailbox.Machine).DoHandshake")
+	if dh == nil {
+		return
+	}
+	fVer := w.Field("mailbox.handshakeState.version")
+	hv2 := w.Const("mailbox.HandshakeVersion2")
+	calls := findCalls(dh, func(ci ssa.CallInstruction) bool {
+		return ci.Common().IsInvoke() && ci.Common().Method.Name() == "SetRemote"
+	})
+	okk := len(calls) == 1 && fVer != nil && hv2 != nil
+	if okk {
+		v2, _ := constant.Int64Val(constant.ToInt(hv2.Val()))
+		isVer := func(v ssa.Value) bool { return isLoadOfField(v, fVer) }
+		okk = hasFact(calls[0].Block(), func(f Fact) bool {
+			return factRel(f, isVer, func(v ssa.Value) bool { k, ok := intConst(v); return ok && k == v2 }) == ">=" ||
+				factRel(f, isVer, func(v ssa.Value) bool { k, ok := intConst(v); return ok && k == v2-1 }) == ">"
+		})
+	}
+	rulePublishOrder(c, "SIDFRESH")
+	c.decide(okk, "SIDFRESH", "DoHandshake|SetRemote for version >= 2", dh.Pos(), "both parties publish the remote static key when the negotiated version is >= 2", "the remote key is not published exactly for the negotiated version >= 2: the two sides move to different rendezvous points")
+}
+
+// ruleConnDataSetters: ConnData.SetRemote (and, with auth, SetAuthData) store their argument on
+// every successful return and on none of the failing ones.
+func ruleConnDataSetters(c *Checker, rule string, auth bool) {
+	w := c.w
+	type setter struct{ fn, field, what string }
+	sets := []setter{{"(*mailbox.ConnData).SetRemote", "mailbox.ConnData.remoteKey", "remote key"}}
+	if auth {
+		sets = append(sets, setter{"(*mailbox.ConnData).SetAuthData", "mailbox.ConnData.authData", "auth data"})
+	}
+	for _, sd := range sets {
+		sr := mboxFunc(c, sd.fn)
+		f := w.Field(sd.field)
+		if sr == nil || f == nil {
+			if f == nil {
+				c.anchorFail(sd.field)
 			}
-			c.decide(okk, "SIDFRESH", "ConnData.SetRemote|stores the key", sr.Pos(), "remoteKey = key", "SetRemote does not store the remote key: the post-pairing switch never happens")
-			// ... and only when it reports success: a rejected key (callback error, the handshake aborts)
-			// must not switch this side to the key-derived rendezvous while the peer stays on the passphrase
-			bad := ""
-			for _, st := range w.Stores(fRK) {
-				if st.Parent() != sr {
-					continue
-				}
-				if r := pathToReturn(st, func(ret *ssa.Return) bool {
-					for _, v := range expandValues(ret.Results[len(ret.Results)-1]) {
-						if !isNilConst(v) {
-							return true
-						}
-					}
-					return false
-				}, nil); r != nil {
-					bad = w.pos(instrPos(r))
-				}
-			}
-			c.decide(bad == "", "SIDFRESH", "ConnData.SetRemote|key kept only on success", sr.Pos(), "no error return is reachable after the store of remoteKey",
-				"SetRemote can fail (return at "+bad+") after it has already stored the remote key: the handshake aborts but this side has moved to the key-derived SID and the KK pattern, the peer has not")
+			continue
 		}
+		short := strings.TrimPrefix(sd.fn, "(*mailbox.")
+		short = strings.Replace(short, ").", ".", 1)
+		var stores []*ssa.Store
+		for _, st := range w.Stores(f) {
+			if st.Parent() == sr && unwrapLoadAlloc(st.Val) == ssa.Value(sr.Params[1]) {
+				stores = append(stores, st)
+			}
+		}
+		c.decide(len(stores) > 0, rule, short+"|stores the "+sd.what, sr.Pos(), sd.field+" = argument", short+" does not store the "+sd.what+": the post-pairing switch never happens / the payload is lost")
+		// ... and only when it reports success: a rejected key (callback error, the handshake aborts)
+		// must not switch this side to the key-derived rendezvous while the peer stays on the passphrase
+		bad := ""
+		for _, st := range w.Stores(f) {
+			if st.Parent() != sr {
+				continue
+			}
+			if r := pathToReturn(st, func(ret *ssa.Return) bool {
+				for _, v := range expandValues(ret.Results[len(ret.Results)-1]) {
+					if !isNilConst(v) {
+						return true
+					}
+				}
+				return false
+			}, nil); r != nil {
+				bad = w.pos(instrPos(r))
+			}
+		}
+		c.decide(bad == "", rule, short+"|kept only on success", sr.Pos(), "no error return is reachable after the store",
+			short+" can fail (return at "+bad+") after it has already stored the "+sd.what+": the handshake aborts but this side has moved on (key-derived SID and KK pattern / payload), the peer has not")
+		// ... and always when it reports success: a successful return that has not passed the store
+		// ("the key is already known") leaves this side with another identity than the one the
+		// handshake just authenticated
+		bad = ""
+		allInstrs(sr, func(in ssa.Instruction) {
+			ret, ok := in.(*ssa.Return)
+			if !ok || ret.Block().Comment == "recover" {
+				return
+			}
+			canSucceed := false
+			for _, v := range expandValues(ret.Results[len(ret.Results)-1]) {
+				if isNilConst(v) {
+					canSucceed = true
+				}
+			}
+			if !canSucceed {
+				return
+			}
+			if pathFromEntry(sr, ret, func(x ssa.Instruction) bool {
+				for _, st := range stores {
+					if x == ssa.Instruction(st) {
+						return true
+					}
+				}
+				return false
+			}) {
+				bad = w.pos(instrPos(ret))
+			}
+		})
+		c.decide(bad == "" && len(stores) > 0, rule, short+"|every successful return has stored the "+sd.what, sr.Pos(), "no nil-error return is reachable without passing the store",
+			short+" can report success (return at "+bad+") without having stored the "+sd.what+" it was given: the two parties proceed with different views of the peer identity / payload")
 	}
 }
 
